@@ -228,11 +228,32 @@ fn infix_arith_ok(g: &Goal) -> bool {
 
 const SPECIAL_TEXTS: [&str; 14] = ["-5", "+5", "-2.5", "+0.25", "-0", "\\,", "?", "!", ".", "-", "007", "1.", "x-1", "a.b"];
 
+/// Signed-number text (the domain C20 names): optional sign, 1-20 digits (so beyond i64 too, and
+/// with leading zeros), optional fraction of 1-6 digits.  Shapes that are not numbers in the C19
+/// grammar (`-.0`, `1e5`, `5-`, `1.2.3`) are outside the property's quantifier and not generated.
+fn numeric_text(s: &mut dyn Src) -> String {
+    let digits = |s: &mut dyn Src, max: u32| -> String {
+        let n = 1 + s.draw(max);
+        (0..n).map(|i| if i == 0 && chance(s, 1, 6) { '0' } else { char::from(b'0' + s.draw(10) as u8) }).collect()
+    };
+    let sign = match weighted(s, &[3, 3, 2]) { 0 => "", 1 => "-", _ => "+" };
+    if chance(s, 1, 2) {
+        let len = if chance(s, 1, 4) { 20 } else { 6 };
+        format!("{}{}", sign, digits(s, len))
+    } else {
+        format!("{}{}.{}", sign, digits(s, 6), digits(s, 6))
+    }
+}
+
 fn decode_plain(u: &U) -> Term { let mut sh = Shape::default(); strip_ids(&from_engine(u, &mut sh)) }
 
 impl ParserProp {
     fn context(&self, s: &mut dyn Src, rep: &mut Report) -> CaseResult {
-        let (text, special) = if chance(s, 2, 5) { (pick(s, &SPECIAL_TEXTS).to_string(), true) } else { (render::term(&c_term(s, 0), &CANON), false) };
+        let (text, special) = match weighted(s, &[1, 3, 4]) {
+            0 => (pick(s, &SPECIAL_TEXTS).to_string(), true),
+            1 => { rep.class("generated-number"); (numeric_text(s), true) }
+            _ => (render::term(&c_term(s, 0), &CANON), false),
+        };
         let case = text.clone();
         type Getter = Box<dyn Fn(&str) -> Result<U, String>>;
         let arg0 = |g: suiron::Goal, i: usize| -> Result<U, String> {
@@ -465,7 +486,14 @@ pub const TEST_STRINGS: [&str; 40] = [
 impl Property for ParserProp {
     fn id(&self) -> &'static str { self.id }
     fn max_len(&self) -> usize { 200 }
-    fn budget(&self) -> (u64, u64) { match self.aspect { PAspect::File => (1500, 40_000), _ => (4000, 120_000) } }
+    // cases per worker (quick, thorough); the string-level checks cost a few microseconds per case
+    fn budget(&self) -> (u64, u64) {
+        match self.aspect {
+            PAspect::File => (1500, 40_000),
+            PAspect::NoPanic => (60_000, 1_500_000),
+            _ => (20_000, 300_000),
+        }
+    }
 
     fn check(&self, s: &mut dyn Src, rep: &mut Report) -> CaseResult {
         match self.aspect {
@@ -532,7 +560,7 @@ impl Property for ParserProp {
         match self.aspect {
             PAspect::NoPanic => "three generators feed all nine entry points (parse_term, parse_linked_list, parse_complex, parse_function, parse_query, parse_subgoal, generate_goal, parse_rule, parse_arguments): valid text rendered from the canonical grammar or taken from the repository's tests; 1-3 character-level mutations of such text (delete, duplicate, swap, truncate, insert from the syntax alphabet); random concatenations of up to 24 syntax tokens. Oracle: no panic (catch_unwind), identified by entry point and panic location. Non-trivial = text longer than 2 characters rejected by at least one entry point; distinct by text.".into(),
             PAspect::RoundTrip => "terms, goals (and/or trees to depth 3, not/time, unify, named comparison, all built-in predicates, function terms) and facts/rules generated from the documented syntax (atoms with spaces / unicode / hyphens, ints incl. negative, floats with a fractional part, variables, $_, lists with optional tail, complex terms of arity 0-4). Oracle: parser accepts the canonical text and the accepted variants (tight commas, quoted atoms, padding, infix comparison, infix arithmetic, bare zero-arity, redundant parentheses); the parsed value equals the value built through the API from the same AST; Display reproduces the canonical text. Non-trivial = contains a nested operator goal, a zero-arity term, a negative number, a float or a list tail; distinct by canonical text.".into(),
-            PAspect::Context => "term texts (canonical grammar terms, plus signed numbers, punctuation and odd atoms) placed in 14 contexts: alone, argument of a complex term / goal / built-in, (nested) list element, either operand of = and of comparisons, query argument, fact argument. Oracle (metamorphic): every context yields the same term (ids stripped) or every context rejects. Non-trivial = special text or text starting with a sign or digit; distinct by text.".into(),
+            PAspect::Context => "term texts (canonical grammar terms; generated signed numbers: optional sign, 1-20 digits incl. leading zeros and beyond i64, optional fraction; a fixed list of punctuation and odd atoms) placed in 14 contexts: alone, argument of a complex term / goal / built-in, (nested) list element, either operand of = and of comparisons, query argument, fact argument. Oracle (metamorphic): every context yields the same term (ids stripped) or every context rejects. Non-trivial = generated number, listed special text, or grammar term starting with a sign or digit; distinct by text.".into(),
             PAspect::File => "1-5 rules from the canonical grammar rendered in accepted syntax (incl. floats and infix operators), laid out with random legal line breaks (after :- and after , ; = - at nesting depth 0 (class 1) or additionally after commas inside parentheses (class 2)), indentation, blank lines and #, %, // comments; written to a scratch file and loaded with load_kb_from_file. Oracle: class 1 must load and equal the knowledge base built by parse_rule on each rule's one-line text (format_kb and rule-by-rule head/body equality); class 2 may alternatively be rejected with an error. Non-trivial = the file has a multi-line rule, a comment, and a float or infix operator; distinct by file text.".into(),
         }
     }
